@@ -716,6 +716,16 @@ C18Case genCase(uint64_t runSeed, const TierCfg &cfg) {
             // (thread-local, so no shared memory is involved) that is trusted too far shows as a result that
             // depends on this history
             if (!op.fault.kind && rng.chance(op.tag == "near-icosa-edge" ? 0.8 : 0.2)) prog.push_back(gen.primerFor(op));
+            // ... or the very same call, refused for lack of memory, and now retried: whatever a failed call leaves
+            // behind (per-thread caches filled half-way, stale keys) meets its first reader here
+            if (!op.fault.kind && fnIsC17(op.fn) && rng.chance(0.15)) {
+                Op failed = op;
+                failed.share = 0;
+                failed.tag = "fails-then-retried";
+                failed.fault.kind = rng.chance(0.6) ? F2_FROM_NTH : F1_NTH;
+                failed.fault.n = rng.range(1, 3);
+                prog.push_back(failed);
+            }
             prog.push_back(op);
         }
         cs.progs.push_back(prog);
